@@ -59,21 +59,21 @@ type Ctx struct {
 	SSA     map[string]*ssa.Package
 	ModPkgs []*packages.Package // packages of the main module, sorted
 
-	Property string
-	Obs      []Obligation
-	Machine  []string // machinery failures (anchor missing, …)
-	Notes    []string
-	floors   map[string]int
+	Property  string
+	Obs       []Obligation
+	Machine   []string // machinery failures (anchor missing, …)
+	Notes     []string
+	floors    map[string]int
 	funcsSeen map[*ssa.Function]bool
-	explain  []string
-	assume   []string
+	explain   []string
+	assume    []string
 
 	cg     *callgraph.Graph
 	cgKind string
 
 	funcsAll map[*ssa.Function]bool
-	declOf map[*types.Func]*ast.FuncDecl
-	fileOf map[*ast.FuncDecl]*packages.Package
+	declOf   map[*types.Func]*ast.FuncDecl
+	fileOf   map[*ast.FuncDecl]*packages.Package
 }
 
 func short(p string) string { return strings.TrimPrefix(strings.TrimPrefix(p, modPath), "/") }
